@@ -534,7 +534,14 @@ func writeEvidence(p *Program, id, tier string, cfg *PropConfig, results []*Func
 		}
 	}
 	// the slowest queries: how far the check is from its per-query time limit
-	byTime := append([]*Obligation{}, obls...)
+	// (vacuity guards have their own short budget and pass when the solver
+	// does not refute them in time; they are left out here)
+	var byTime []*Obligation
+	for _, o := range obls {
+		if !o.MustBeSat {
+			byTime = append(byTime, o)
+		}
+	}
 	sort.Slice(byTime, func(i, j int) bool { return byTime[i].Seconds > byTime[j].Seconds })
 	var slowest []interface{}
 	for i, o := range byTime {
